@@ -60,8 +60,15 @@ def run_cases(c, prop, cases, label):
     return out
 
 
+ARITY_FAMILIES = {"C09": ["eq.Tuple", "hash.Tuple"], "C10": ["ord.Tuple"], "C18": ["clone.Tuple"]}
+
+
 def replay(c, prop):
     rp = json.load(open(c.replay))
+    if rp.get("kind") == "arity":
+        import aritylib
+        aritylib.family_subrun(c, prop, ARITY_FAMILIES[prop])
+        return
     _, out = c.harness("tc", [rp["case"]], name="replay")
     rej = c.validate(out, "TraceTypeclass", max_rejects=1)
     if rej:
